@@ -251,3 +251,56 @@ _run_c16_prev = run
 def run(res, facts, tier):
     _run_c16_prev(res, facts, tier)
     r4_key_context(res, facts)
+
+
+def r5_reentrancy(res, facts):
+    """A sort key is an arbitrary expression: through a variable evaluated on first use it can instantiate a template body that sorts.  The call
+    graph shows whether NodeSorter::sort can reach sortChildren again; if it can, sortChildren must not fill the shared sorter while it is in use."""
+    r = res.rule('C16-R5', 'nested sorts: NodeSorter::sort can reach ElemForEach::sortChildren again through key evaluation (call graph), so sortChildren takes the execution context\'s '
+                 'shared sorter only when its key vector is empty and otherwise works on a sorter of its own', floor=2)
+    cg = facts.cg
+    sort_fns = [k for k in facts.fn('NodeSorter::sort', must=False)]
+    sc = [k for k in facts.fn('ElemForEach::sortChildren', must=False)]
+    if not sort_fns or not sc:
+        raise AnalysisBroken('NodeSorter::sort / ElemForEach::sortChildren not found')
+    seen = cg.reach(sort_fns)
+    reent = [k for k in sc if k in seen]
+    if not reent:
+        r.ok('NodeSorter::sort cannot reach sortChildren: no nested sorts')
+        return r
+    path = cg.path(seen, reent[0])
+    r.ok('reentrancy is possible', ' -> '.join(path[:3] + ['...'] + path[-3:]) if len(path) > 7 else ' -> '.join(path))
+    a = facts.ast(sc[0])
+    shared = [c for c in calls(a['body']) if (c.get('n') or '') == 'getNodeSorter']
+    local = [v for x in walk(a['body']) if x.get('k') == 'Decl' for v in x.get('vars', []) if short(v.get('ty') or '').replace('xalanc_1_12::', '') == 'NodeSorter']
+    guard = None
+    for x in walk(a['body']):
+        if x.get('k') == 'If' and 'getSortKeys().empty()' in pp(x['cond']):
+            core, eff = common.norm_atom(x['cond'], True)
+            asg = [y for y in walk(x['then']) if y.get('k') == 'Bin' and y['op'] == '=' and local and ('&' + local[0]['n']) in pp(y['rhs']).replace('(', '').replace(')', '')]
+            if asg and not eff:
+                guard = x
+            elif asg and eff and x.get('else') is None:
+                guard = None
+    site = 'ElemForEach::sortChildren: choice of the sorter'
+    if not shared:
+        r.ok(site, 'does not use the shared sorter')
+    elif local and guard is not None:
+        # the guard precedes the first use of the key vector
+        first_keys = min([x.get('l') or 0 for x in walk(a['body']) if x.get('k') == 'Decl' and any(v['n'] == 'keys' for v in x.get('vars', []))] or [0])
+        if (guard.get('l') or 0) <= first_keys:
+            r.ok(site, 'shared sorter only while its key vector is empty, else a local NodeSorter')
+        else:
+            r.violation(site, 'the busy test comes after the key vector of the shared sorter has been taken', common.file_line(a, guard))
+    else:
+        r.violation(site, 'the single sorter of the execution context is filled with this sort\'s keys even when an enclosing sort is evaluating its keys with it: the outer sort continues with '
+                    'the wrong (or cleared) key vector — a key that refers to a lazily evaluated variable containing a sorted loop fails with a bogus circular-variable error', common.file_line(a, shared[0]))
+    return r
+
+
+_run_c16_prev2 = run
+
+
+def run(res, facts, tier):
+    _run_c16_prev2(res, facts, tier)
+    r5_reentrancy(res, facts)
